@@ -60,17 +60,61 @@ def r1_effect_set(ctx, rule):
     # --copy: the write target is under the copy
     fn = ctx.fn(ER + 'edit_rules')
     mod = ctx.repo.modules['edit_rules.py']
-    sw = [s for s in walk_stmts(fn.body) if isinstance(s, ast.Assign) and U(s.targets[0]) == "config['rule']" and U(s.value) == "config['copy']"]
+    # evaluated through the callee: what copytree receives and what config['rule'] becomes, in the caller's terms
+    import copy as _cp
+    cfn = ctx.fn(ER + '_create_copy')
+
+    def through(call, expr):
+        """callee expression `expr` with the callee's single-definition locals expanded and its parameters replaced by the arguments"""
+        ps_ = params(cfn)
+        amap = {}
+        for i_, a_ in enumerate(call.args):
+            if i_ < len(ps_):
+                amap[ps_[i_]] = a_
+        for k_ in call.keywords:
+            if k_.arg:
+                amap[k_.arg] = k_.value
+        e_ = expand(cfn, expr, stores_in(cfn), depth=4)
+
+        class T(ast.NodeTransformer):
+            def visit_Name(self, n_):
+                if isinstance(n_.ctx, ast.Load) and n_.id in amap:
+                    return _cp.deepcopy(amap[n_.id])
+                return n_
+        return T().visit(_cp.deepcopy(e_))
+    sw = [s for s in walk_stmts(fn.body) if isinstance(s, ast.Assign) and U(s.targets[0]) == "config['rule']"]
     gf = [s for s in walk_stmts(fn.body) if isinstance(s, ast.Assign) and U(s.targets[0]) == 'grammar_file']
     cc = [c for c in calls_in(fn) if call_name(c) == '_create_copy']
+    trees = [c for c in calls_in(cfn) if call_name(c) == 'shutil.copytree' and len(c.args) >= 2]
     good = False
-    if len(sw) == 1 and len(gf) == 1 and len(cc) == 1:
+    undecided = None
+    if len(sw) == 1 and len(gf) == 1 and len(cc) == 1 and len(trees) == 1:
         conds = [(U(t), p) for t, p in path_conditions(mod, sw[0])]
-        a = [U(x) for x in cc[0].args]
-        good = conds == [("config.get('copy')", True)] and sw[0].lineno < gf[0].lineno and cc[0].lineno < sw[0].lineno \
-            and len(a) == 2 and "config.get('rule')" in a[0] and "config.get('copy')" in a[1]
+        src = U(through(cc[0], trees[0].args[0])).replace("config['rules_dir']", "config.get('rules_dir')")
+        dst = U(through(cc[0], trees[0].args[1])).replace("config['rules_dir']", "config.get('rules_dir')")
+        val = sw[0].value
+        if isinstance(val, ast.Call) and call_name(val) == '_create_copy':
+            rets_ = [r for r in walk_local(cfn) if isinstance(r, ast.Return) and r.value is not None]
+            val = through(cc[0], rets_[0].value) if len(rets_) == 1 else None
+        switched = val is not None and U(val) in ("config['copy']", "config.get('copy')")
+        want_src = "os.path.join(config.get('rules_dir'), config.get('rule'))"
+        want_dst = "os.path.join(config.get('rules_dir'), config.get('copy'))"
+        simple = all(isinstance(x, (ast.Call, ast.Attribute, ast.Name, ast.Constant, ast.Load, ast.Subscript)) for e_ in (src, dst)
+                     for x in ast.walk(ast.parse(e_, mode='eval').body))
+        good = conds == [("config.get('copy')", True)] and sw[0].lineno < gf[0].lineno and cc[0].lineno <= sw[0].lineno \
+            and src == want_src and dst == want_dst and switched
+        if not good and not simple:
+            undecided = 'copy source / target not understood: %s -> %s' % (src[:60], dst[:60])
+    elif len(trees) != 1 or len(cc) != 1:
+        undecided = 'the --copy step is not recognised (%d _create_copy calls, %d copytree calls in it)' % (len(cc), len(trees))
+    if undecided:
+        ok = False
+        ctx.unk(rule, ER + 'edit_rules', undecided)
+        good = None
     if good:
         ctx.ok(rule, ER + 'edit_rules', 'with --copy the ruleset is copied first and all later paths use the copy')
+    elif good is None:
+        pass
     else:
         ok = False
         ctx.bad(rule, ER + 'edit_rules', '--copy handling', 'copy <rule> to <copy>, then switch config[rule] to the copy before the '
